@@ -11,6 +11,7 @@ C01.5  typed-array names agree between frontend, IR and the ECMAScript globals
 import re
 import tsast
 from facts import walk, WASM
+from facts import children as _children
 from rules import ts_common
 
 LEVEL = "other"
@@ -563,6 +564,8 @@ def run(cx, rep):
     modifier_agreement_rule(cx, rep, "C01.22")
     rest_last_rule(cx, rep, "C01.23")
     proto_key_rule(cx, rep, "C01.24")
+    # ---------------------------------------------------------------- C01.26
+    conditional_decides_once_rule(cx, rep, "C01.26")
     # ---------------------------------------------------------------- C01.25 (= C03.7 + C11.2)
     # which keys of an object count as DECLARED decides which values reach the index-signature validators and which
     # keys are surplus: a key named like a member of Object.prototype that passes for declared is accepted unvalidated
@@ -868,6 +871,80 @@ def modifier_agreement_rule(cx, rep, rid):
                    "%s turns the modifier `?` into Optionality::%s but `+?` into %s: `{[K in X]+?: T}` makes the members optional exactly like `?`" % (g, arms["True"], "Optionality::%s" % plus if plus else "nothing"),
                    "%s:%s" % (f.file, m.get("line")), sample={"fn": g, "True": arms["True"], "Plus": plus})
     rep.floor(rid, "case analyses over the optional modifier of mapped types", n, 1)
+
+
+# ---------------------------------------------------------------------------------------------------- C01.26
+def conditional_decides_once_rule(cx, rep, rid):
+    """`C extends E ? X : Y` is decided by ONE inclusion test of C as written.  TypeScript distributes the test over the
+    members of a union only when C is a naked type parameter; for an alias of a union or an inline `(A | B)` the whole
+    type is tested.  A lowering that splits the resolved checked type and decides per member turns `Role extends
+    "admin" ? P : Q` (Role = "admin" | "user") from Q into P | Q: the validator accepts values of a type the program does
+    not have.  Decided over the functions of the frontend that take the conditional-type node: no inclusion decision
+    (`is_subtype`) - and no call of another such function that leads to one - sits inside a loop or an iterator
+    closure, unless a test that reads the scope of type parameters (the stack the generic application pushes on)
+    guards the loop."""
+    F = cx.rs
+    rep.rule(rid, "a conditional type is decided once, on the checked type as written (no distribution over a resolved union)")
+    fam = {}
+    for g, t in sorted(F.hir.items()):
+        f = F.fns.get(g)
+        if f is None or "/src/frontend" not in (f.file or "") or f.kind == "Closure":
+            continue
+        if any("TsConditionalType" in (x or "") for x in (f.inputs or [])):
+            fam[g] = t
+    if not fam:
+        rep.anchor_missing(rid, "frontend functions that take a TsConditionalType")
+        return
+    # the scope of type parameters: the field of the frontend context that generic application pushes (name, type) on
+    scope_fields = set()
+    for g, t in F.hir.items():
+        f = F.fns.get(g)
+        if f is None or "/src/frontend" not in (f.file or ""):
+            continue
+        for x in walk(t["body"]):
+            if x["k"] == "MethodCall" and x.get("method") == "push" and x["recv"]["k"] == "Field" and re.search(r"Vec<\((std::string::)?String, (\w+::)*Runtype\)>", x["recv"].get("ty") or ""):
+                scope_fields.add(x["recv"]["name"])
+
+    def decides(t):
+        return [x for x in walk(t["body"]) if x["k"] == "MethodCall" and x.get("method") == "is_subtype"]
+    leads = {g for g, t in fam.items() if decides(t)}
+    grew = True
+    while grew:
+        grew = False
+        for g, t in fam.items():
+            if g in leads:
+                continue
+            for x in walk(t["body"]):
+                if x["k"] in ("Call", "MethodCall") and F._callee_gid(F.fns[g].crate, (x.get("callee") if x["k"] == "Call" else (x.get("resolved") or x.get("callee"))) or "") in leads:
+                    leads.add(g)
+                    grew = True
+                    break
+    n = 0
+    for g, t in sorted(fam.items()):
+        f = F.fns[g]
+        parents = {}
+        for x in walk(t["body"]):
+            for c_ in _children(x):
+                parents[id(c_)] = x
+        events = decides(t) + [x for x in walk(t["body"]) if x["k"] in ("Call", "MethodCall") and
+                               F._callee_gid(f.crate, (x.get("callee") if x["k"] == "Call" else (x.get("resolved") or x.get("callee"))) or "") in (leads - {g})]
+        for ev in events:
+            n += 1
+            cur, loop, guarded = ev, None, False
+            while id(cur) in parents:
+                par = parents[id(cur)]
+                if par["k"] == "Loop" or (par["k"] == "Closure" and id(par) in parents and parents[id(par)]["k"] == "MethodCall"):
+                    loop = loop or par
+                if loop is not None and par["k"] in ("If", "Match"):
+                    tst = par.get("cond") or par.get("scrut")
+                    if tst is not None and not any(z is loop for z in walk(tst)) and any(z["k"] == "Field" and z.get("name") in scope_fields for z in walk(tst)):
+                        guarded = True
+                cur = par
+            what = ev.get("method") or (ev.get("callee") or "?").rsplit("::", 1)[-1]
+            rep.ob(rid, "%s/%s" % (f.name, what), loop is None or guarded,
+                   "%s reaches the inclusion decision of a conditional type (`%s`) inside a loop that is not guarded by a test of the type-parameter scope: the checked type is split and decided member by member although it is not a naked type parameter - `Role extends \"admin\" ? P : Q` with Role = \"admin\" | \"user\" lowers to P | Q instead of Q" % (g, what),
+                   "%s:%s" % (f.file, ev["line"]), sample={"fn": f.name, "event": what, "in_loop": loop is not None})
+    rep.floor(rid, "inclusion decisions (and calls leading to one) in the conditional-type lowering", n, 1)
 
 
 # ---------------------------------------------------------------------------------------------------- C01.23
